@@ -158,12 +158,17 @@ claim("C21",
       "Ownership contract close_requires_ownership on SqliteStateStore / SqliteWorkflowStore: a connection obtained "
       "from _connect() may be closed only under the `owns connection` guard; decided on the AST for every method of the "
       "real classes (all syntactic paths), with the native scenario `single_connection` replaying any failed obligation "
-      "against real sqlite. Since fix 19adfa4 all obligations hold.",
-      "Equivalence of results between the two connection modes beyond 'the shared connection stays open' (transaction "
-      "visibility, commit points) relies on SQLite semantics and is not covered.",
+      "against real sqlite. Since fix 19adfa4 all obligations hold. One result that differs between the modes is "
+      "under contract as well (pyvc + z3, ghost call log): SqliteWorkflowStore.delete returns the row count of the "
+      "cursor that executed ITS statement - not a connection-wide counter, which on a shared connection includes "
+      "earlier operations.",
+      "Equivalence of results between the two connection modes beyond 'the shared connection stays open' and the "
+      "delete count (transaction visibility, commit points, the other operations' results) relies on SQLite semantics "
+      "and is not covered.",
       category="other",
       technique="contract-based: ownership (close only what you opened) contract on the real classes, obligations "
-                "decided on the Python AST, failing obligations replayed natively against sqlite")
+                "decided on the Python AST, failing obligations replayed natively against sqlite; delete's result "
+                "as a postcondition over a ghost call log (pyvc + z3)")
 
 claim("C12",
       "BrokerState.to_serialized, from_workflow and from_serialized are under contract and fully discharged (what is "
@@ -212,8 +217,16 @@ claim("C24",
       "delete removes exactly the matching handlers and returns their number; update / _evict_oldest_completed keep "
       "every non-terminal handler and drop only the oldest completions, and only when more than max_completed "
       "completed handlers exist - under the inductive store invariant 'the completion queue lists exactly the completed "
-      "handlers, each once', which every operation is proved to preserve (since fix a483339).",
-      "SQLite store parity is not covered (SQL strings; _build_filters is not under contract); asyncio interleavings "
+      "handlers, each once', which every operation is proved to preserve (since fix a483339). SQLite store, the "
+      "Python side of the statements: _build_filters returns None exactly when a given filter list is empty (matches "
+      "nothing, as in memory) and otherwise one clause per given filter in a fixed order, each IN clause with one "
+      "placeholder per value, with the parameter list holding the values in the same order (the k-th placeholder "
+      "binds the k-th parameter); delete sends no statement when nothing can match or no filter is given, otherwise "
+      "exactly one statement on a cursor of the store's connection with those parameters, commits once, and returns "
+      "the row count of that statement's cursor (ghost call log).",
+      "SQLite parity beyond that is assumed, not proved: the SQL text itself (strings are opaque except for the "
+      "placeholder structure), SQLite's semantics of IN / AND and of cursor.rowcount; query() of the SQLite store is "
+      "not under contract; asyncio interleavings "
       "of store operations are not modelled (each operation has no await between its reads and writes); the order of "
       "surviving queue entries after delete() is not stated.")
 
